@@ -52,7 +52,7 @@ class MemoSubprocess(object):
 
     def check_output(self, command, **kw):
         kw.pop("shell", None)
-        src, out, flags = self._parse(command)
+        src, out, flags = self._parse(command) if isinstance(command, (list, tuple)) else (None, None, None)
         if src is None or out is None:
             return _real.check_output(command, **kw)
         with open(src, "rb") as fid:
@@ -63,13 +63,14 @@ class MemoSubprocess(object):
         key = hashlib.sha256(keytext + b"\0" + " ".join(flags).encode()).hexdigest()
         self.sources.append(key[:16])
         entry = os.path.join(self.memo_dir, key + ".so")
+        text_mode = kw.get("text") or kw.get("universal_newlines") or kw.get("encoding")
         if os.path.exists(entry):
             self.hits += 1
             if os.path.lexists(out):
                 os.unlink(out)
             shutil.copyfile(entry, out)
             os.chmod(out, 0o755)
-            return b""
+            return "" if text_mode else b""
         self.misses += 1
         result = _real.check_output(command, **kw)
         if os.path.exists(out):
@@ -77,3 +78,50 @@ class MemoSubprocess(object):
             shutil.copyfile(out, tmp)
             os.replace(tmp, entry)
         return result
+
+    # the other ways of running the compiler and waiting for it go through the same memo
+    def run(self, command, **kw):
+        check = kw.pop("check", False)
+        capture = kw.pop("capture_output", False)
+        if capture:
+            kw["stderr"] = _real.STDOUT
+        kw.pop("stdout", None)
+        try:
+            out, rc = self.check_output(command, **kw), 0
+        except _real.CalledProcessError as exc:
+            if check:
+                raise
+            out, rc = exc.output, exc.returncode
+        return _real.CompletedProcess(command, rc, out, out[:0] if out is not None else None)
+
+    def check_call(self, command, **kw):
+        kw.pop("stdout", None)
+        self.check_output(command, **kw)
+        return 0
+
+    def call(self, command, **kw):
+        kw.pop("stdout", None)
+        try:
+            self.check_output(command, **kw)
+            return 0
+        except _real.CalledProcessError as exc:
+            return exc.returncode
+
+
+def install(module, memo):
+    """Bind *memo* wherever *module* refers to subprocess: the module under any
+    alias, and functions imported from it by name."""
+    import types
+    for name, val in list(vars(module).items()):
+        if name.startswith("__"):
+            continue
+        if val is _real or isinstance(val, MemoSubprocess):
+            setattr(module, name, memo)
+        elif isinstance(getattr(val, "__self__", None), MemoSubprocess):
+            setattr(module, name, getattr(memo, val.__name__))
+        elif not isinstance(val, types.ModuleType):
+            rname = getattr(val, "__name__", None)
+            if isinstance(rname, str) and getattr(_real, rname, None) is val and rname in (
+                    "check_output", "run", "check_call", "call"):
+                setattr(module, name, getattr(memo, rname))
+    return memo
